@@ -315,6 +315,148 @@ for _n, _c in CASES.items():
     unit('C03', 'roundtrip.' + _n, FUNCS, replay='contracts.C03:replay', max_paths=20000)(roundtrip(_c))
 
 
+class MappedResult(Model):
+    """What a mapping function returns to create_associated: an object with FIELD_SETS and one attribute per field."""
+    type_names = ('HasFieldSets',)
+
+    def __init__(self, fieldsets, values):
+        self.fieldsets, self.values = fieldsets, values
+
+    def py_getattr(self, I, name):
+        if name == 'FIELD_SETS':
+            return list(self.fieldsets)
+        if name in self.values:
+            return self.values[name]
+        raise Unsupported('mapped result.' + name)
+
+
+class RegisteredFieldSet(Model):
+    def __init__(self, name, fields):
+        self.name, self.fields = name, fields
+
+    def py_getattr(self, I, name):
+        if name == 'fieldset_name':
+            return self.name
+        if name == 'fields':
+            return dict(self.fields)
+        if name == 'items':
+            return Builtin('items', lambda: list(self.fields.items()))
+        raise Unsupported('FieldSet.' + name)
+
+
+@unit('C03', 'create-associated.species-of-the-first-result', [TS + '.create_associated'], replay='contracts.C03:replay_mapped_unset')
+def create_associated_species(h):
+    """"... or were produced by mapping a function over an existing store": the new file's species slots are collected
+    from the first result.  An optional species field left unset (None) in that result is a value that fits its field set:
+    the file must be created (its species = those of the fields that are set) and every result written."""
+    from pyvc.models.fs import GhostFS, PathVal
+    I, Species, TM, sp, tm, dm, Dimensions = enums(h)
+    SV = I.lookup_fq('AEIC.types.species:SpeciesValues')
+    fs = GhostFS()
+    fs.dirs.add('/data')
+    I.hooks['fs'] = fs
+    dims_s = I.call(Dimensions, [dm['TRAJECTORY'], dm['SPECIES']], {})
+    dims_t = I.call(Dimensions, [dm['TRAJECTORY']], {})
+    rfs = RegisteredFieldSet('extra', {'e_opt': FieldStub(dims_s, required=False), 'e_set': FieldStub(dims_s), 'x': FieldStub(dims_t)})
+    h.summary('AEIC.storage.field_sets:FieldSet.known', lambda I_, fi, a, k: True)
+    h.summary('AEIC.storage.field_sets:FieldSet.from_registry', lambda I_, fi, a, k: rfs)
+    first_unset = h.choice(2) == 0
+    h.ctx.named['first_result_leaves_the_optional_field_unset'] = z3.BoolVal(first_unset)
+    results = [MappedResult([rfs], dict(e_opt=(None if first_unset else I.call(SV, [{sp['NOx']: h.real('o0')}], {})),
+                                        e_set=I.call(SV, [{sp['CO2']: h.real('s0')}], {}), x=h.real('x0'))),
+               MappedResult([rfs], dict(e_opt=None, e_set=I.call(SV, [{sp['CO2']: h.real('s1')}], {}), x=h.real('x1')))]
+    calls = []
+    mapping = Builtin('mapping_function', lambda t, *a, **k: (calls.append(t), results[len(calls) - 1])[1], pure=False)
+    created, written = [], []
+
+    class DS(Model):
+        def py_getattr(self, I_, name):
+            if name == 'close':
+                return Builtin('close', lambda: None, pure=False)
+            if name == 'id_hash':
+                return 'hash-of-base'
+            raise Unsupported('Dataset.' + name)
+    NcFiles = I.lookup_fq(TS + '.NcFiles')
+    base = I.call(NcFiles, [], dict(path=['/data/base.nc'], fieldsets={'base'}, dataset=[DS()], traj_dim=[None], traj_var=[None],
+                                    species=None, groups={}, size_index=None))
+
+    def create_nc(I_, fi, a, k):
+        args = list(a[1:])
+        created.append(dict(species=list(args[2]) if len(args) > 2 else list(k.get('species', [])), fieldsets=args[1] if len(args) > 1 else k.get('fieldsets')))
+        return I_.call(NcFiles, [], dict(path=['/data/a.nc'], fieldsets={'extra'}, dataset=[DS()], traj_dim=[None], traj_var=[None],
+                                         species=created[-1]['species'], groups={}, size_index=None))
+    h.summary(TS + '._create_nc_file', create_nc)
+    h.summary(TS + '._write_data', lambda I_, fi, a, k: written.append(k.get('index')))
+    st = h.new(TS, _partial=True, _nc_files=[base], _nc={'base': base})
+    h.summary(TS + '.__len__', lambda I_, fi, a, k: 2)
+    h.summary(TS + '.__getitem__', lambda I_, fi, a, k: ('trajectory', a[1]))
+    try:
+        h.method(st, 'create_associated', PathVal('/data/a.nc'), ['extra'], mapping)
+    except PyExc as e:
+        h.fail('results-that-fit-the-field-set-are-stored', f'{e.inst!r} at {e.inst.where} (first result leaves the optional species field unset: {first_unset})')
+        return
+    want = {'CO2'} | (set() if first_unset else {'NOx'})
+    got = [m.name for m in created[0]['species']] if created else None
+    h.ensure('file-created-with-a-slot-for-every-species-of-the-first-result', created and len(created) == 1 and set(got) >= want and len(set(got)) == len(got),
+             note=f'species slots {got}, first result uses {sorted(want)}')
+    h.ensure('every-result-written', written == [0, 1], note=f'rows written: {written}')
+
+
+def replay_mapped_unset(payload):
+    """Native: create_associated whose first mapped result leaves an optional species field unset."""
+    import os
+    import shutil
+    import tempfile
+    from AEIC.storage import Dimension as D, Dimensions, FieldMetadata, FieldSet
+    from AEIC.trajectories import TrajectoryStore
+    from AEIC.types import Species, SpeciesValues
+    from contracts.C07 import _mk
+    if not FieldSet.known('c03_mapped_opt'):
+        FieldSet('c03_mapped_opt',
+                 c03m_e=FieldMetadata(dimensions=Dimensions(D.TRAJECTORY, D.SPECIES), description='', units='', required=False),
+                 c03m_s=FieldMetadata(dimensions=Dimensions(D.TRAJECTORY, D.SPECIES), description='', units=''),
+                 c03m_x=FieldMetadata(dimensions=Dimensions(D.TRAJECTORY), description='', units=''))
+    tmp = tempfile.mkdtemp(prefix='c03m-', dir=os.environ.get('VERIF_SCRATCH'))
+    problems = []
+    try:
+        b, a = os.path.join(tmp, 'b.nc'), os.path.join(tmp, 'a.nc')
+        TrajectoryStore.active_in_thread = None
+        with TrajectoryStore.create(base_file=b) as ts:
+            for i in range(2):
+                ts.add(_mk(i))
+        TrajectoryStore.active_in_thread = None
+
+        class Extra:
+            FIELD_SETS = [FieldSet.from_registry('c03_mapped_opt')]
+
+            def __init__(self, i):
+                self.c03m_e = None
+                self.c03m_s = SpeciesValues({Species.CO2: 1.0 + i})
+                self.c03m_x = 2.0 + i
+        n = [0]
+
+        def mapping(t):
+            n[0] += 1
+            return Extra(n[0] - 1)
+        try:
+            with TrajectoryStore.open(base_file=b) as ts:
+                ts.create_associated(a, ['c03_mapped_opt'], mapping)
+        except Exception as e:   # noqa
+            problems.append(f'create_associated with an unset optional species field in the mapped result: {type(e).__name__}: {e}')
+        TrajectoryStore.active_in_thread = None
+        if not problems:
+            with TrajectoryStore.open(base_file=b, associated_files=[a]) as ts:
+                for i in range(2):
+                    r = ts[i]
+                    got = (r.c03m_e, {k.name: float(v) for k, v in r.c03m_s.items()}, float(r.c03m_x))
+                    if got[1] != {'CO2': 1.0 + i} or got[2] != 2.0 + i or (got[0] is not None and len(got[0]) > 0):
+                        problems.append(f'trajectory {i}: mapped values read back as {got}')
+        return dict(reproduced=bool(problems), observed=problems[:3], required='mapped results that fit their field set are stored and read back')
+    finally:
+        TrajectoryStore.active_in_thread = None
+        shutil.rmtree(tmp, ignore_errors=True)
+
+
 @unit('C03', 'unset-optional-field', FUNCS, replay='contracts.C03:replay_unset')
 def unset_optional(h):
     """An optional field left unset (None), of any of the six shapes: writing it stores nothing and reading it back gives an
